@@ -1,10 +1,12 @@
-"""prints the prompt for a seeded-breakage sub-agent: python3 lib/seed_prompt.py C21 [n]"""
+"""prints the prompt for a seeded-breakage sub-agent: python3 lib/seed_prompt.py C21 [tag] [count]"""
 import json, sys
 pid = sys.argv[1]
 tag = sys.argv[2] if len(sys.argv) > 2 else "a"
+count = int(sys.argv[3]) if len(sys.argv) > 3 else 2
 p = [json.loads(l) for l in open("/verif/properties.jsonl") if json.loads(l)["id"] == pid][0]
 wt = "/tmp/seed-%s-%s" % (pid, tag)
-print(f"""You are a careful adversarial engineer working on the erg compiler (Rust + Python runtime). Your scratch git worktree is {wt} — create it first with `git -C /repo worktree add {wt} HEAD` and work ONLY inside it (never edit /repo itself, never look into /verif — it is off limits for this task, your work must be independent of it). Offline sandbox: use `cargo ... --offline`; python interpreters are at /root/.pyenv/versions/*/bin/python3.X; run erg with `ERG_PATH={wt}/crates/erg_compiler`.
+dirs = " and ".join("%s/_seed/%d/" % (wt, i + 1) for i in range(count))
+print(f"""You are a careful adversarial engineer working on the erg compiler (Rust + Python runtime). Your scratch git worktree is {wt} — create it first with `git -C /repo worktree add {wt} HEAD` and work ONLY inside it (never edit /repo itself, never look into /verif — it is off limits for this task, your work must be independent of it). Offline sandbox: use `cargo ... --offline`; python interpreters are at /root/.pyenv/versions/*/bin/python3.X (3.7.16, 3.8.18, 3.9.18, 3.10.13, 3.11.7 default, 3.12.1, 3.13.0; call them by absolute path); run erg with `ERG_PATH={wt}/crates/erg_compiler` so the runtime library of your worktree is used. The machine is shared and heavily loaded: builds are slow, use generous timeouts (the first `cargo test` build may take 15+ minutes); three tests are known to flake under load even on unmodified code (els test_tolerant_completion / test_completion_retrigger / test_dependents_check, occasionally exec_operators, exec_tuple): re-run a failing test alone before concluding anything.
 
 Here is a semantic property of erg that should hold:
 
@@ -14,6 +16,6 @@ Here is a semantic property of erg that should hold:
   anchored in: {', '.join(p['anchors']['files'])}
   mechanisms: {'; '.join(m.get('name','') + ' @ ' + m.get('where','') for m in p['anchors'].get('mechanism', []))}
 
-Task: produce ONE realistic change to erg (the kind of bug a maintainer could plausibly introduce in a refactor, optimisation or feature commit; 1–25 changed lines; no comments announcing it) that BREAKS this property while the project still compiles and the whole existing test suite still passes (`cd {wt} && cargo test --workspace --offline 2>&1 | tail -20` must show no failures: 230 tests). The breakage must need something specific to manifest — an unusual input, a particular multi-step sequence of operations, a boundary value, two cooperating sites that each look fine alone — NOT something ordinary use would expose at once. Then write a demonstration (a small Rust test file, a python script, or a shell script + .er program) that FAILS with your change and PASSES without it (verify both: use `git stash` / `git diff > patch.diff; git checkout .` inside your worktree to run it on the unchanged code, then re-apply).
+Task: produce {count} different realistic change(s) to erg (each the kind of bug a maintainer could plausibly introduce in a refactor, optimisation or feature commit; 1–25 changed lines; no comments announcing it), each of which BREAKS this property while the project still compiles and the whole existing test suite still passes (`cd {wt} && cargo test --workspace --offline --no-fail-fast 2>&1 | grep -E "^test result|FAILED|failed" ` must show no real failures). Each breakage must need something specific to manifest — an unusual input, a particular multi-step sequence of operations, a boundary value, a particular target version, two cooperating sites that each look fine alone — NOT something ordinary use would expose at once. Make the changes different in kind from each other (different function / different mechanism). For each, write a demonstration (a shell script driving the erg binary on a small .er program, a python script, or a small Rust crate outside the workspace with path dependencies) that FAILS with your change and PASSES without it (verify both: `git diff > patch.diff; git checkout .` inside your worktree to run it on the unchanged code, then re-apply).
 
-Deliver in the directory {wt}/_seed/ : `patch.diff` (output of `git diff` for the source change only, applicable with `git apply` on the original HEAD), the demonstration file(s) with a `run_demo.sh` that exits 0 when the property holds and non-zero when it is violated (it may assume it is run from the worktree root with the patch applied or not), and `meta.json` = {{"property": "{pid}", "summary": one sentence, "needs": what specific input/sequence/boundary is needed to manifest it, "files_changed": [...], "test_suite": "N passed / 0 failed with patch", "demo_without_patch": "passes", "demo_with_patch": "fails"}}. Leave the worktree in place with the patch APPLIED (uncommitted) when you finish. Final message: the summary, the `needs`, and confirmation of the three runs (suite with patch, demo with patch, demo without patch). If after serious effort a change of that kind is impossible for this property (everything that breaks it also breaks a test), say so and explain the closest you got.""")
+Deliver in {dirs}: `patch.diff` (output of `git diff` for the source change only, applicable with `git apply` on the original HEAD), the demonstration file(s) with a `run_demo.sh` that exits 0 when the property holds and non-zero when it is violated (run from the worktree root, patch applied or not; it must build what it needs from the worktree), and `meta.json` = {{"property": "{pid}", "summary": one sentence, "needs": what specific input/sequence/boundary is needed to manifest it, "files_changed": [...], "test_suite": "N passed / 0 failed with patch", "demo_without_patch": "passes", "demo_with_patch": "fails"}}. Leave the worktree with NO patch applied (clean `git status` apart from _seed/) when you finish. Final message: for each change the summary, the `needs`, and confirmation of the three runs (suite with patch, demo with patch, demo without patch). If after serious effort a change of that kind is impossible (everything that breaks the property also breaks a test), say so and explain the closest you got.""")
